@@ -6,7 +6,7 @@
 
   OBLIGATIONS (checked by the harness: `#print axioms` of each):
     sanitize_total stripentities_total sanitize_css_total
-    only_safe_elems_attrs no_comments no_cdata_markers
+    only_safe_elems_attrs no_comments no_cdata_markers no_gt_in_declarations
     wellnested_in_out end_tags_safe dropped_subtree_absent
     uri_attrs_checked uri_attrs_safe scheme_punct_rejected
     css_comments_dotall css_expression_classes_cover css_decode_fixed css_no_expression
@@ -88,6 +88,35 @@ theorem no_cdata_markers {cfg : Cfg} {s o : Stream} (h : sanitize cfg s = .ok o)
     Event.startCdata ∉ o ∧ Event.endCdata ∉ o := by
   refine ⟨?_, ?_⟩ <;> intro hm <;> obtain ⟨st1, e, _, hem⟩ := sanitizeFrom_mem h _ hm <;> cases hem with
   | other hw hns hnc hsc hec => first | exact hsc rfl | exact hec rfl
+
+/-- **Every declaration-like event that survives is closed where it says**: no processing
+    instruction and no DOCTYPE declaration of the output holds a `>` (in target or data; in name,
+    public or system identifier).  An HTML parser ends both at the first `>`, quoted or not, and
+    reads the rest as markup (findings C06-pi-markup and C06-doctype-markup, repaired) — for all
+    input streams. -/
+theorem no_gt_in_declarations {cfg : Cfg} {s o : Stream} (h : sanitize cfg s = .ok o) :
+    (∀ t d, Event.pi t d ∈ o → '>' ∉ t ∧ '>' ∉ d) ∧
+    (∀ n p q, Event.doctype n p q ∈ o → dtHasGt n p q = false) := by
+  refine ⟨?_, ?_⟩
+  · intro t d hm
+    obtain ⟨st1, e, _, hem⟩ := sanitizeFrom_mem h _ hm
+    cases hem with
+    | other hw hns hnc hsc hec hdt hpi =>
+      have := hpi t d rfl
+      simp only [Bool.or_eq_false_iff] at this
+      exact ⟨by simpa using this.1, by simpa using this.2⟩
+  · intro n p q hm
+    obtain ⟨st1, e, _, hem⟩ := sanitizeFrom_mem h _ hm
+    cases hem with
+    | other hw hns hnc hsc hec hdt hpi => exact hdt n p q rfl
+
+-- non-vacuity: the system identifier `x'><s>` (legal XML inside double quotes) and a PI with `>`
+-- are dropped; a harmless DOCTYPE and PI pass
+example : sanitize Cfg.default [.doctype ['h', 't', 'm', 'l'] none (some ['x', '\'', '>', '<', 's', '>']),
+    .pi ['x'] ['a', '>'], .doctype ['h', 't', 'm', 'l'] (some ['-', '/', '/', 'W']) (some ['x', '.', 'd', 't', 'd']),
+    .pi ['p', 'h', 'p'] ['e', 'c', 'h', 'o']] =
+    .ok [.doctype ['h', 't', 'm', 'l'] (some ['-', '/', '/', 'W']) (some ['x', '.', 'd', 't', 'd']),
+      .pi ['p', 'h', 'p'] ['e', 'c', 'h', 'o']] := by decide +kernel
 
 -- non-vacuity: a section (closed, then unclosed) around hostile text; the text stays, as plain TEXT
 example : sanitize Cfg.default [.startCdata, .text [']', ']', '>', '<', 's', '>'] false, .endCdata, .startCdata,
